@@ -32,9 +32,12 @@ def plan(tier, seed):
     return ac.std_plan(tier, quick_budget=75, thorough_budget=700)
 
 
-def _pos_formula(u1, u2, delta):
-    return ((abs(u1.segment.start - u2.segment.start) + abs(u1.segment.end - u2.segment.end)) /
-            ((u1.segment.end - u1.segment.start) + (u2.segment.end - u2.segment.start))) ** 2 * delta
+def _pos_formula(u1, u2, delta, custom=None):
+    rel = ((abs(u1.segment.start - u2.segment.start) + abs(u1.segment.end - u2.segment.end)) /
+           ((u1.segment.end - u1.segment.start) + (u2.segment.end - u2.segment.start)))
+    if custom == "linear":       # the user-defined positional component of cases.linear_positional_class()
+        return rel * delta
+    return rel ** 2 * delta
 
 
 def _cat_value(dissim, dspec, u1, u2, delta):
@@ -55,6 +58,7 @@ def ref_cat_disorder(alignment, dissim, category, dspec=None):
     n unit/empty pairs counted).  The positional term is evaluated from the documented formula in float64 with the
     combined dissimilarity's delta_empty (not through the component object)."""
     delta = float(dissim.delta_empty)
+    custom = getattr(dissim.positional_dissim, "_verif_custom", None)
     num = 0.0
     den = 0.0
     rr = ue = 0
@@ -76,7 +80,7 @@ def ref_cat_disorder(alignment, dissim, category, dspec=None):
                     den += delta
                     continue
                 rr += 1
-                w = (1.0 / (k - 1)) * max(0.0, 1.0 - float(dissim.alpha) * _pos_formula(u1, u2, delta))
+                w = (1.0 / (k - 1)) * max(0.0, 1.0 - float(dissim.alpha) * _pos_formula(u1, u2, delta, custom))
                 num += w * _cat_value(dissim, dspec, u1, u2, delta)
                 den += w
     if den == 0:
@@ -118,6 +122,8 @@ def combined_specs(rng, n):
     out = []
     while len(out) < n:
         d = cases.gen_dissim(rng, ["combined"], allow_component_delta=False)
+        if rng.random() < 0.2:      # a user-defined positional component: the weights must follow ITS d()
+            d["pos"] = {"delta": d["delta"], "custom": "linear"}
         out.append(d)
     return out
 
